@@ -7,6 +7,7 @@ import Model.C05.PsbtMap
 import Model.C05.PsbtTyped
 import Model.C05.Misc
 import Model.C05.P2p
+import Model.C05.Json
 import Generated.VarInt
 import Generated.Wire
 open Btc Btc.Wire
@@ -79,12 +80,128 @@ def runReserV (s : Psbt.Spec) (ver hex : String) : String :=
   | some v, some b => Psbt.runReser s v b
   | _, _ => "bad-op"
 
+-- ------------------------------------------------------------------ JSON form (to_dict / from_dict)
+namespace JsonProto
+open Btc.Json
+
+def chars (b : Bytes) : List Char := b.map (fun x => Char.ofNat x.toNat)
+def unchars (s : List Char) : Bytes := s.map (fun c => UInt8.ofNat c.toNat)
+
+/-- a json value as tokens: n | t | f | i<int> | s<hex of the ascii text> | a<count> items | o<count> (s<key> value)* -/
+def parseJ : Nat → List String → Option (J × List String)
+  | 0, _ => none
+  | _ + 1, [] => none
+  | fuel + 1, tok :: rest =>
+    let items (n : Nat) : Option (List J × List String) :=
+      n.fold (fun _ _ acc => match acc with
+        | none => none
+        | some (xs, r) => match parseJ fuel r with
+          | some (x, r') => some (xs ++ [x], r')
+          | none => none) (some ([], rest))
+    let pairs (n : Nat) : Option (List (List Char × J) × List String) :=
+      n.fold (fun _ _ acc => match acc with
+        | none => none
+        | some (xs, r) => match parseJ fuel r with
+          | some (.str k, r') => match parseJ fuel r' with
+            | some (v, r'') => some (xs ++ [(k, v)], r'')
+            | none => none
+          | _ => none) (some ([], rest))
+    match tok.toList with
+    | ['n'] => some (.null, rest)
+    | ['t'] => some (.bool true, rest)
+    | ['f'] => some (.bool false, rest)
+    | 'i' :: ds => (parseInt? (String.ofList ds)).map (fun i => (.num i, rest))
+    | 's' :: hs => (fromHex? (String.ofList hs)).map (fun b => (.str (chars b), rest))
+    | 'a' :: ds => match (String.ofList ds).toNat? with
+      | some n => (items n).map (fun p => (.arr p.1, p.2))
+      | none => none
+    | 'o' :: ds => match (String.ofList ds).toNat? with
+      | some n => (pairs n).map (fun p => (.obj p.1, p.2))
+      | none => none
+    | _ => none
+
+def renderJ : Nat → J → List String
+  | 0, _ => ["?"]
+  | _ + 1, .null => ["n"]
+  | _ + 1, .bool b => [if b then "t" else "f"]
+  | _ + 1, .num i => [s!"i{i}"]
+  | _ + 1, .str s => ["s" ++ toHex (unchars s)]
+  | fuel + 1, .arr l => s!"a{l.length}" :: l.flatMap (renderJ fuel)
+  | fuel + 1, .obj l => s!"o{l.length}" :: l.flatMap (fun kv => ("s" ++ toHex (unchars kv.1)) :: renderJ fuel kv.2)
+
+/-- the stand-ins of what is computed elsewhere: the harness masks `asm`, `type`, `addresses` with `~`, renders
+    the BTC text as `~<satoshi>` and resolves a value to satoshi (or to something that is not one) beforehand -/
+def env : Env where
+  asm := fun _ => ['~']
+  btcText := fun v => '~' :: (toString v).toList
+  satsOf := fun j => match j with | .num n => some n | _ => none
+  scriptType := fun _ _ => .str ['~']
+  addresses := fun _ _ => .str ['~']
+  H := hash256
+
+def rOut (o : Json.OutPoint) : String := s!"{toHex o.txId}:{o.vout}"
+def rWit (w : List Bytes) : String := joinWith "," (w.map toHex)
+def rIn (i : Json.TxIn) : String := s!"{rOut i.prevOut}/{toHex i.scriptSig}/{i.sequence}/{rWit i.witness}"
+def rTxO (o : Json.TxOut) : String := s!"{o.value}/{toHex o.script}/{String.ofList o.network}"
+def rTx' (t : Json.Tx) : String :=
+  s!"v={t.version} l={t.lockTime} in=[{joinWith ";" (t.vin.map rIn)}] out=[{joinWith ";" (t.vout.map rTxO)}]"
+
+def res {α : Type} (r : Except Json.Err α) (f : α → String) : String :=
+  match r with
+  | .ok x => "ok " ++ f x
+  | .error _ => "err refused"
+
+def runFrom (cls : String) (cv : Bool) (j : J) : String :=
+  match cls with
+  | "outpoint" => res (Json.OutPoint.fromDict cv j) rOut
+  | "witness" => res (witnessFromDict j) rWit
+  | "script" => res (scriptFromDict env j) toHex
+  | "txin" => res (Json.TxIn.fromDict env cv j) rIn
+  | "txout" => res (Json.TxOut.fromDict env cv j) rTxO
+  | "tx" => res (Json.Tx.fromDict env cv j) rTx'
+  | _ => "bad-op"
+
+def ofWireIn (i : Wire.TxIn) : Json.TxIn := ⟨⟨i.prevOut.txId, i.prevOut.vout⟩, i.scriptSig, i.sequence, i.witness⟩
+def ofWireTx (t : Wire.Tx) : Json.Tx :=
+  ⟨t.version, t.lockTime, t.vin.map ofWireIn, t.vout.map (fun o => ⟨o.value, o.script, "mainnet".toList⟩)⟩
+
+def out (j : J) : String := "ok " ++ " ".intercalate (renderJ 8 j)
+
+/-- `json.to <class> <hex of the wire serialization> [network]`: the dict of the object those octets are -/
+def runTo (cls : String) (b : Bytes) (net : List Char) : String :=
+  match cls with
+  | "outpoint" => match outPoint.parseAll b with
+    | .ok o => out (Json.OutPoint.toDict ⟨o.txId, o.vout⟩) | .error _ => "bad-op"
+  | "witness" => match witness.parseAll b with
+    | .ok w => out (witnessToDict w) | .error _ => "bad-op"
+  | "txin" => match txIn.parseAll b with
+    | .ok i => out (Json.TxIn.toDict env (ofWireIn i)) | .error _ => "bad-op"
+  | "txout" => match txOut.parseAll b with
+    | .ok o => out (Json.TxOut.toDict env ⟨o.value, o.script, net⟩) | .error _ => "bad-op"
+  | "tx" => match tx.parseAll b with
+    | .ok t => out (Json.Tx.toDict env (ofWireTx t)) | .error _ => "bad-op"
+  | _ => "bad-op"
+
+end JsonProto
+
 def handle : List String → String
   | "gen" :: "VarInt" :: fn :: args => (Gen.VarInt.dispatch fn args).getD "bad-op"
   | "gen" :: "Wire" :: fn :: args => (Gen.Wire.dispatch fn args).getD "bad-op"
   | ["varint.parse", hex, maxSize] =>
     match fromHex? hex, maxSize.toNat? with
     | some b, some m => renderVarInt (VarInt.parse b m)
+    | _, _ => "bad-op"
+  | "json.from" :: cls :: cv :: toks =>
+    match JsonProto.parseJ 12 toks with
+    | some (j, []) => JsonProto.runFrom cls (cv == "1") j
+    | _ => "bad-op"
+  | ["json.to", cls, hex] =>
+    match fromHex? hex with
+    | some b => JsonProto.runTo cls b "mainnet".toList
+    | none => "bad-op"
+  | ["json.to", cls, hex, net] =>
+    match fromHex? hex, fromHex? net with
+    | some b, some n => JsonProto.runTo cls b (JsonProto.chars n)
     | _, _ => "bad-op"
   | ["psbtin.torecs", ver, payload] => runTorecs Psbt.specIn ver payload
   | ["psbtout.torecs", ver, payload] => runTorecs Psbt.specOut ver payload
